@@ -47,7 +47,34 @@ def _subterm_variants(t):
         pass
 
 
+def fix_requests(c):
+    """after commands were dropped: remove names that no longer exist from get-interpolants requests"""
+    names = {x[2] for x in c["cmds"] if x[0] == "assert-named"}
+    out = []
+    for x in c["cmds"]:
+        if x[0] == "get-interpolants":
+            groups = []
+            for g in x[1]:
+                ns = [g] if not g.startswith("(and ") else sexpr.parse_one(g)[1:]
+                ns = [n for n in ns if n in names]
+                if ns:
+                    groups.append(ns[0] if len(ns) == 1 else "(and %s)" % " ".join(ns))
+            if len(groups) < 2:
+                continue
+            x = ["get-interpolants", groups]
+        out.append(x)
+    c["cmds"] = out
+    return c
+
+
 def candidates(case):
+    for c in _candidates(case):
+        if any(x[0] == "get-interpolants" for x in c.get("cmds", [])):
+            c = fix_requests(c)
+        yield c
+
+
+def _candidates(case):
     s = case
     # drop options
     for i in range(len(s["options"])):
